@@ -252,7 +252,7 @@ def chunkLoop : Nat → Nat → Bytes → Except RErr (Nat × Bytes)
       else chunkLoop f started (bs2.drop len)
 
 def setTrack (ts : List Track) (i : Nat) (f : Track → Track) : List Track :=
-  ts.mapIdx (fun j t => if j = i then f t else t)
+  ts.set i (f (ts.getD i []))
 
 /-- `ReadTracks`: returns the final state and the error that ended the loop -/
 def readLoop : Nat → RState → Bytes → RState × RErr
